@@ -385,21 +385,31 @@ def sqrtCore (c : Ctx) (x : Dec) : ED × Dec :=
   let r2 := r1.1.step r1.2 (fun c => addOp c r1.2 k0 false)
   sqrtLoop 64 r2.1 f r2.2 3 (workp + 5)
 
-/-- the final rounding and exactness re-check of Sqrt -/
-def sqrtTail (c : Ctx) (x : Dec) (a : Dec) : Dec × Cond :=
+/-- the final rounding and exactness re-check of Sqrt, with the two rounding contexts explicit -/
+def sqrtTailCtx (nc2 ncw : Ctx) (x : Dec) (a : Dec) : Dec × Cond :=
   let nd := ndigits x.coeff
   let e0 : Int := (nd : Int) + x.exp
   let even := (Int.tmod e0 2 == 0)
   let e : Int := if even then e0 else e0 + 1
   let d : Dec := { a with exp := a.exp + Int.tdiv e 2 }
-  let nc2 : Ctx := { c with prec := c.prec, mode := .halfEven }
-  let r := ctxRound nc2 d
+  let r0 := ctxRound ncw d
+  let r1 := if r0.2.inexact && r0.1.form == .finite then
+             let st := sqrtSettle ncw r0.1 d x
+             (st.1, r0.2 ||| st.2)
+           else r0
+  let r2 := ctxRound nc2 r1.1
+  let r : Dec × Cond := (r2.1, r1.2 ||| r2.2)
   let res :=
     if !r.2.inexact && r.1.form == .finite then
       let sq := mulOp baseCtx r.1 r.1
       if sq.err != .none || sq.d.cmp x != 0 then r.2 ||| cInexact ||| cRounded else r.2
     else r.2
   (r.1, res)
+
+/-- the final rounding and exactness re-check of Sqrt -/
+def sqrtTail (c : Ctx) (x : Dec) (a : Dec) : Dec × Cond :=
+  sqrtTailCtx { c with prec := c.prec, mode := .halfEven }
+    { ({ c with prec := c.prec, mode := .halfEven } : Ctx) with emax := MaxExponent } x a
 
 theorem sqrtOp_eq (c : Ctx) (x : Dec) :
     sqrtOp c x = match rootSpecials c x 2 with
@@ -408,7 +418,22 @@ theorem sqrtOp_eq (c : Ctx) (x : Dec) :
         if (sqrtCore c x).1.failed then failOut (sqrtCore c x).1.errOf
         else finish { c with prec := c.prec, mode := .halfEven } (sqrtTail c x (sqrtCore c x).2) := rfl
 
-theorem sqrtTail_wt (c : Ctx) (t : Cond) (x a : Dec) : sqrtTail (wt c t) x a = sqrtTail c x a := rfl
+theorem sqrtSettle_wt (c : Ctx) (t : Cond) (d a x : Dec) : sqrtSettle (wt c t) d a x = sqrtSettle c d a x := by
+  unfold sqrtSettle
+  have h1 : ({ wt c t with mode := Mode.down } : Ctx) = wt { c with mode := Mode.down } t := rfl
+  rw [h1]
+  simp only [ctxRound_wt, wt_prec]
+  rfl
+
+theorem sqrtTailCtx_wt (n2 nw : Ctx) (t : Cond) (x a : Dec) :
+    sqrtTailCtx (wt n2 t) (wt nw t) x a = sqrtTailCtx n2 nw x a := by
+  unfold sqrtTailCtx
+  simp only [ctxRound_wt, sqrtSettle_wt]
+
+theorem sqrtTail_wt (c : Ctx) (t : Cond) (x a : Dec) : sqrtTail (wt c t) x a = sqrtTail c x a := by
+  unfold sqrtTail
+  exact sqrtTailCtx_wt { c with prec := c.prec, mode := .halfEven }
+    { ({ c with prec := c.prec, mode := .halfEven } : Ctx) with emax := MaxExponent } t x a
 
 theorem sqrtCore_sim (c : Ctx) (t : Cond) (x : Dec) :
     Sim t (sqrtCore (wt c t) x).1 (sqrtCore (wt c {}) x).1 ((sqrtCore (wt c t) x).2 = (sqrtCore (wt c {}) x).2) := by
